@@ -178,6 +178,23 @@ package snowflake_client
 //@   at call Remove assert {each-peer-is-closed-before-it-is-dropped} calls(Close) == calls(Remove) + 1 && arg1 == e
 //@   ensures {each-dropped-peer-was-closed} calls(Close) == calls(Remove)
 //
+// ---- the peer as a byte stream (C09): Write hands exactly the caller's bytes to the data channel, once, and reports
+// all of them written or an error; Read takes from the pipe the data channel callback fills.
+//@ func (c *WebRTCPeer) Write(b []byte) (n int, err error)
+//@   props C09
+//@   flag nosafety
+//@   requires c != nil
+//@   assumes c.transport != nil && c.bytesLogger != nil
+//@   at call Send assert {sends-exactly-the-callers-bytes} base(arg1) == base(b) && len(arg1) == len(b)
+//@   ensures {all-or-error} calls(Send) == 1 && ((err == nil && n == len(b)) || (err != nil && n == 0))
+//
+//@ func (c *WebRTCPeer) Read(b []byte) (n int, err error)
+//@   props C09
+//@   flag nosafety
+//@   requires c != nil
+//@   assumes c.recvPipe != nil
+//@   at call Read assert {reads-the-receive-pipe-into-the-callers-buffer} arg0 == c.recvPipe && base(arg1) == base(b) && len(arg1) == len(b)
+//
 // ---- closing one peer (C15: "closes every peer it holds"): Close is idempotent and, the first time, marks the peer
 // closed and releases everything the peer holds - its side of the pipe, the data channel and the peer connection.
 //@ func (c *WebRTCPeer) Close() (err error)
